@@ -20,6 +20,13 @@ ASSUMPTIONS = ["numpy sum/cumsum/mean on the raw array as reference; rtol 1e-12 
 def int_case(draw):
     g = draw(gen.geom(nmax=5, exps=(-9, 3), maxcells=400))
     nd = len(g["n"])
+    if nd >= 2 and draw(st.integers(0, 5)) == 0:
+        # integer-typed corners with huge edges: the product of the edge lengths leaves the int64 range
+        # (3 000 000 units per side in 3-d), the cell measure as a float does not
+        e = {2: 4_000_000_000, 3: 3_000_000, 4: 70_000}[nd]
+        g["p1"] = [draw(st.integers(-5, 5)) * e for _ in range(nd)]
+        g["p2"] = [a + e * draw(st.integers(1, 3)) for a in g["p1"]]
+        g["exp"] = 0
     return {"g": g, "nvdim": draw(st.integers(1, 4)), "seed": draw(st.integers(0, 2**31)),
             "seed2": draw(st.integers(0, 2**31)),
             # narrow storage types: running sums leave the range of the dtype (counts, masks)
